@@ -226,10 +226,56 @@ func (fe *analyticFieldEngine) applyCall(s *Stream, row map[string]any, c types.
 	if err != nil || args == nil {
 		args = []any{}
 	}
+	nullMissingColumnArgs(c.Args, row, args)
 	if hasStarArg(c.Args) {
 		args = expandStarArgs(c.Args, row, args)
 	}
 	return state.Apply(args)
+}
+
+// nullMissingColumnArgs 把"裸列引用且该列在当前行缺失"的参数值置为 nil。
+// parseFunctionArgs 对解析不了的标识符原样返回其文本（为兼容未加引号的 true/false 等字面量），
+// 于是 lag(v)/acc_count(v)/latest(v) 在缺 v 的行上会把列名字符串 "v" 当作值写入状态
+// （acc_count 多计一次、lag/latest 之后返回 "v"）。缺失列按 SQL 语义应为 NULL。
+// exprs 为参数原始文本，与 args 按位置对齐；长度不一致时不处理。
+func nullMissingColumnArgs(exprs []string, row map[string]any, args []any) {
+	if len(exprs) != len(args) {
+		return
+	}
+	for i, e := range exprs {
+		e = strings.TrimSpace(e)
+		if !isBareColumnRef(e) {
+			continue
+		}
+		if s, isStr := args[i].(string); !isStr || s != e {
+			continue // 已解析为列值/字面量
+		}
+		if _, ok := lookupRowField(row, e); !ok {
+			args[i] = nil
+		}
+	}
+}
+
+// isBareColumnRef 判断参数文本是否为裸列引用（标识符，可带限定符），排除布尔/空字面量。
+func isBareColumnRef(e string) bool {
+	if e == "" {
+		return false
+	}
+	switch strings.ToLower(e) {
+	case "true", "false", "null", "nil":
+		return false
+	}
+	for i := 0; i < len(e); i++ {
+		ch := e[i]
+		isAlpha := ch == '_' || (ch >= 'a' && ch <= 'z') || (ch >= 'A' && ch <= 'Z')
+		if i == 0 && !isAlpha {
+			return false
+		}
+		if !isAlpha && !(ch >= '0' && ch <= '9') && ch != '.' {
+			return false
+		}
+	}
+	return true
 }
 
 // evaluateMultiColumn 处理 changed_cols 等多列函数：按 prefix+列名 扇出变化列。
@@ -238,6 +284,7 @@ func (fe *analyticFieldEngine) evaluateMultiColumn(s *Stream, row map[string]any
 	if err != nil || values == nil {
 		values = []any{}
 	}
+	nullMissingColumnArgs(fe.af.Args, row, values)
 	// 位置参数：优先用已求值；"*" 致解析失败时用字面量还原 prefix/ignoreNull。
 	argVal := func(idx int) any {
 		if idx < len(values) {
